@@ -1,7 +1,7 @@
 from ioshared import Q, OBJS, A3, double_format
 
 META = {
-    'bounds': 'all 14 serialisable object kinds (12 types + cloud/secret composites) of tiny dimensions (n=2, N=2, k=1, l=2, t=2, basebit=1) with '
+    'bounds': 'all 14 serialisable object kinds (12 types + cloud/secret composites) of tiny dimensions (n=2, N=2, k=1 and k=2, l=2, t=2, basebit=1) with '
               'symbolic contents: every coefficient a symbolic 32-bit word, noise levels from three per-query constant sets incl. the default sets\' '
               '2^-15, 2^-25, 7.18e-9, 2.44e-5 and the extremes 1e-12, 0.5, plus one scalar query over ALL doubles of [1e-12,0.5] through the number formatter; both transports; four objects back to back in one stream. Asserted: field-for-field '
               'equality (derived fields recomputed by the real constructors), variance of key material = common maximum, stream fully and cleanly '
@@ -33,6 +33,13 @@ def queries(tier, seed):
                              validate=(cxx == 1 and ni == o % 3 and name in ('LweParams', 'LweSample', 'TGswParams', 'LweKeySwitchKey', 'SecretKeySet')) or (cxx == 0 and name == 'LweParams'),
                              finding_key='C05.double-format' if name not in ('LweKey',) else None))
         out.append(Q('C05.h_concat.%s' % ('cxx' if cxx else 'cfile'), 'h_concat', dict({'CXX': cxx}, **NOISES[1][1]), validate=True, finding_key='C05.double-format'))
+    # k=2 (two mask polynomials): per-polynomial loops of the key / sample sections
+    for o, name in enumerate(OBJS):
+        if name in ('TLweSample', 'TLweKey', 'TGswSample', 'TGswKey', 'LweBootstrappingKey', 'SecretKeySet') and (tier == 'thorough' or name in ('TLweKey', 'TGswKey', 'TLweSample', 'SecretKeySet')):
+            d = {'OBJ': o, 'CXX': 1, 'PK': 2}
+            d.update(NOISES[o % 3][1])
+            out.append(Q('C05.h_roundtrip.%s.cxx[k=2]' % name, 'h_roundtrip', d, validate=(name == 'TLweKey'), finding_key='C05.double-format',
+                         mdefs=dict(double_format()[1], IO_CAP=1024), unwind=1030))
     out.append(Q('C05.canary.h_roundtrip.LweSample', 'h_roundtrip', {'OBJ': 3, 'CXX': 1, 'CANARY': 1}, expect='fail', witness=False))
     out.append(Q('C05.canary.h_concat', 'h_concat', {'CXX': 1, 'CANARY': 1}, expect='fail', witness=False))
     out.append(Q('C05.canary.h_double_format', 'h_double_format', {'CXX': 1, 'CANARY': 1}, expect='fail', witness=False))
